@@ -1,5 +1,5 @@
 # replay of a bounded stand-in violation: re-run native/c01_backends.py
 import sys
-print("CZgate(-0.25,) | (q[2], q[0]) of 3 on fock: ('quad', 0, 0.0) = [0.0548, 0.5665], the documented action gives [0.0621, 0.7265]")
+print("BSgate(0.45, 0.7) | (q[0], q[1]) of 2 after Del | q[0] (indices shifted by one) on fock: raised ValueError: axes don't match array")
 print('REPLAY-VIOLATION')
 sys.exit(1)
